@@ -199,7 +199,9 @@ class Stage:
         else:
             cls = self.L.image.KittyImage if kind == "K" else self.L.image.ITerm2Image
             img = cls(pattern(cw * CELL[0], ch * CELL[1], seed=wid + 1))
-            spec = "+L"
+            # the z field of a kitty format specifier is documented as ignored by the widget (the z-index is
+            # allocated internally): even-numbered kitty widgets all carry the SAME z field, odd ones none
+            spec = "+Lz5" if kind == "K" and wid % 2 == 0 else "+L"
         # every other kitty widget is an instance of a subclass of UrwidImage
         wcls = sub_class(self.um) if kind == "K" and wid % 4 == 2 else self.um.UrwidImage
         try:
@@ -498,6 +500,13 @@ class Stage:
         if (self.term.wraps, self.term.scrolls) != (wraps, scrolls) or not self.term.in_ground():
             self.report(dict(clause="wrap-scroll", **ctx),
                         f"redraw wrapped/scrolled the terminal or left the parser in {self.term.parser_state}")
+        # -- the z-index a placement is drawn on must be the one its (live) widget holds: the screen deletes by it
+        held = {getattr(w, "_ti_z_index", None) for wid, kind, w in self.live_widgets() if kind == "K"}
+        used = {p.z for p in self.term.placements if p.proto == "kitty"}
+        if used - held:
+            self.report(dict(clause="z-placement-not-held", **ctx),
+                        f"placements are drawn on z-index(es) {sorted(used - held)} but the live kitty widgets hold "
+                        f"{sorted(z for z in held if z is not None)}")
         # -- differential: a fresh screen drawing only this canvas on a fresh terminal
         ref = self.fresh(canvas)
         got_p = self.term.snapshot_placements()
